@@ -278,7 +278,7 @@ Lemma peers_set_peer st p P q : peers (set_peer st p P) q = if q =? p then P els
 Proof. reflexivity. Qed.
 
 Ltac explode :=
-  unfold step, recv, consume_initiation, consume_response, tun_packet;
+  unfold step, recv, consume_initiation, consume_response, tun_packet, send_initiation;
   repeat bm; cbn [fst snd peers set_table set_peer nseq]; repeat bm.
 Ltac fields :=
   cbn [last_ts last_sent last_cons hs_seq hs_state with_responder_session with_initiator_session
@@ -316,7 +316,7 @@ Proof.
     assert (Weak : Forall (fun t => last_ts (peers st p) < t)
                      (acc_ts p evs (outs step (fst (step st e)) evs))).
     { eapply Forall_impl; [|exact IHb]. cbn. intros. lia. }
-    destruct (e_body e) as [src m|q inner|q d| |on] eqn:B; try (split; assumption).
+    destruct (e_body e) as [src m|q inner|q d| |on|q k] eqn:B; try (split; assumption).
     destruct (m_kind m) eqn:K; [|split; assumption].
     destruct (existsb is_resp (snd (step st e))) eqn:NE; cbn [andb]; [|split; assumption].
     destruct (m_static m =? p) eqn:Ep; [|split; assumption].
@@ -461,10 +461,10 @@ Lemma step_emits_init st e to p s ts :
   snd (step st e) = [OInit to p s ts] ->
   hs_seq (peers (fst (step st e)) p) = nseq st + 1 /\ nseq (fst (step st e)) = nseq st + 1.
 Proof.
-  unfold step, recv, consume_initiation, consume_response, tun_packet;
+  unfold step, recv, consume_initiation, consume_response, tun_packet, send_initiation;
   repeat bm; cbn [fst snd]; intros O; try discriminate O;
     try (exfalso; apply map_otrans_not_init in O; destruct O as [_ O]; eapply O; reflexivity).
-  inversion O; subst. cbn [peers set_peer nseq]. rewrite N.eqb_refl. cbn. split; reflexivity.
+  all: inversion O; subst; cbn [peers set_peer nseq]; rewrite N.eqb_refl; cbn; split; reflexivity.
 Qed.
 
 (* ... and only for the most recent initiation: after the device has created
@@ -516,10 +516,10 @@ Lemma emit_step st e p :
       last_sent (peers st p) + RekeyTimeout <= e_now e /\ last_sent (peers st1 p) = e_now e).
 Proof.
   intros NR LE. unfold is_reset in NR. revert NR.
-  unfold step, recv, consume_initiation, consume_response, tun_packet.
+  unfold step, recv, consume_initiation, consume_response, tun_packet, send_initiation.
   repeat bm; intros NR; try discriminate NR;
     cbn [fst snd peers set_table set_peer]; rewrite ?emitted_in_otrans; cbn [emitted_in]; repeat bm;
-    norm; subst; try congruence; fields;
+    norm; subst; try congruence; fields; cbn [last_sent set_staged] in *;
     first [ left; repeat split; (reflexivity || lia) | right; repeat split; (reflexivity || lia) ].
 Qed.
 
